@@ -86,6 +86,7 @@ class C06(Prop):
                 g.scope_accs = [g.accs]
             if i % 6 == 2:
                 g.readcall = 0.3
+            g.opaque = 0.6 if i % 9 == 4 else 0.0
             g.before = i % 7 == 5  # another function in front of @f: every function is transformed as if it were alone
             if i % 4 == 3:
                 g.ifinput = 0.3  # a conditional computing from a region-local and an outer value is itself a setup input
